@@ -996,6 +996,13 @@ func newTaskState(r *core.Run, id int, ops []hop, disc simnet.Discipline) *taskS
 	return t
 }
 
+// unreadIntact: the octets still unread in the task's connection are what the peer sent.
+func (t *taskState) unreadIntact() bool {
+	un := t.conn.Unread()
+	rest := t.link.stream[min(t.consumed, len(t.link.stream)):]
+	return len(un) > len(rest) || bytes.Equal(un, rest[:len(un)])
+}
+
 // setBlocked switches the task to the blocking extractor (before its first operation).
 func (t *taskState) setBlocked(disc simnet.Discipline) {
 	t.blocked = true
@@ -1121,6 +1128,12 @@ func runHistories(r *core.Run, prop string) {
 				// the owner grows its result in place where the capacity allows (never beyond): other results,
 				// later results and the library must not notice
 				fillSpare(live)
+				if o.kind == 0 && !t.unreadIntact() {
+					// growing a decoded value in place reached the connection's buffer: the value is a view of it
+					r.Fail(prop, "input-buffer-written", label, "through-the-result", "task %d: the owner of a decoded %s wrote within the capacity of its values and the unread octets of the connection's buffer changed: a decoded value is a view of the input", t.id, label)
+					failed = true
+					return
+				}
 				res := hres{kind: o.kind, live: live, snap: birth, label: label}
 				t.res = append(t.res, res)
 				// (2) equal to the sequential reference at birth
@@ -1195,6 +1208,17 @@ func RaceWorkload(seed uint64, idx uint64, cold bool) (mismatch string, tasks, o
 		tr.Quiet = true
 		trs = append(trs, tr)
 		ts = append(ts, newTaskState(tr, i, genHistory(c, "C13", i, 14), simnet.Compact))
+	}
+	if c.Prob(1, 3) {
+		// every task starts with a few Builds that take a logging path (notice / notice + error), so that log calls
+		// of different levels overlap
+		for i, t := range ts {
+			var pre []hop
+			for k := 0; k < 3; k++ {
+				pre = append(pre, hop{kind: 7, coding: 3 + (i+k)%2, smpp: (i+k)%3 != 0, text: "abc", ref: byte(i)})
+			}
+			ts[i] = newTaskState(trs[i], i, append(pre, t.ops...), simnet.Compact)
+		}
 	}
 	if c.Prob(1, 3) {
 		hs := make([][]hop, len(ts))
